@@ -42,7 +42,7 @@ ST = {
     "mielens2": (("spheres", [(1.59, 0.5, C0), (1.45, 0.3, (1.3, 0.9, 6.0))]),
                  ("MieLens", (0.8,), {})),
     "lens-mie": (("sphere", 1.59, 0.5, C0),
-                 ("Lens", (0.8, ("Mie", (False, False), {}), 24, 24), {})),
+                 ("Lens", (0.8, ("Mie", (False, False), {}), 64, 64), {})),
     "auto": (("sphere", 1.59, 0.5, C0), "auto"),
 }
 
